@@ -26,6 +26,8 @@ struct LogWorld : World {
     const std::vector<std::string> &opnames() const override { return LG_NAMES; }
     void gen_cfg(Rng &r, const std::string &, const std::string &, Cfg &c) override {
         c.world = "qlog"; c.set("ts", 1); c.set("rot", r.pick(std::vector<int>{0, 1, 10, 60})); c.set("flushopt", r.below(2)); c.set("nops", r.range(3, 30));
+        c.set("coarse", r.below(2));      // 1: the file name pattern changes more rarely than the rotation interval (rotation finds the same name)
+        c.set("mt", 0);
     }
     Op gen_op(Rng &r, const std::string &, const std::string &, GenState &) override {
         Op op; op.k = wpick(r, {{35, LG_WRITE}, {30, LG_WRITEF}, {10, LG_DUP}, {10, LG_FLUSH}, {15, LG_JUMP}});
@@ -38,9 +40,9 @@ struct LogWorld : World {
     bool sut_create(Ctx &x) override {
         dir = x.scratch + "/qlog";
         mkdir_p();
-        std::string fmt = dir + "/log-%Y%m%d-%H%M%S.txt";
+        std::string fmt = dir + (cfg.get("coarse") ? "/log-%Y.txt" : "/log-%Y%m%d-%H%M%S.txt");
         { InSut s; lg = qlog(fmt.c_str(), 0644, rot, QLOG_OPT_THREADSAFE | (cfg.get("flushopt") ? QLOG_OPT_FLUSH : 0)); }
-        dup = nullptr;
+        dup = fopen("/dev/null", "w");
         x.st.add(rot ? "cfg.rotating" : "cfg.no_rotation");
         return lg != nullptr;
     }
@@ -51,7 +53,7 @@ struct LogWorld : World {
         if (d) { struct dirent *e; while ((e = readdir(d))) if (e->d_name[0] != '.') unlink((dir + "/" + e->d_name).c_str()); closedir(d); }
     }
     void sut_destroy(Ctx &) override { if (lg) { InSut s; lg->free(lg); } lg = nullptr; cleanup(); }
-    void sut_abandon() override { lg = nullptr; }
+    void sut_abandon() override { lg = nullptr; dup = nullptr; }
     void *sut_mutex() override { return nullptr; }
 #if QSIM_STRUCT
     void sut_force_unlock() override { if (lg && lg->qmutex) pthread_mutex_unlock((pthread_mutex_t *)lg->qmutex); }
@@ -62,10 +64,10 @@ struct LogWorld : World {
         case LG_WRITE: { Bytes v = gen_value(op.b, op.c, 1); CallerBuf vb(v); bool ok; { InSut s; ok = lg->write(lg, (const char *)vb.p); } return ok ? R_ok() : R_fail(); }
         case LG_WRITEF: { Bytes v = gen_value(op.b, op.c, 1); CallerBuf vb(v); bool ok; { InSut s; ok = lg->writef(lg, "%d:%s", op.a, (const char *)vb.p); } return ok ? R_ok() : R_fail(); }
         case LG_DUP: {
-            if (dup) { InSut s; lg->duplicate(lg, nullptr, false); }
-            if (dup) { fclose(dup); dup = nullptr; }
-            if (op.d & 1) dup = fopen("/dev/null", "w");
-            { InSut s; lg->duplicate(lg, dup, (op.d & 2) != 0); }
+            // one duplicate stream per log object, opened once and closed only after the log is freed: client threads
+            // switch duplication on and off but never close a stream the log may still be writing to
+            if (!dup) dup = fopen("/dev/null", "w");
+            { InSut s; lg->duplicate(lg, (op.d & 1) ? dup : nullptr, (op.d & 2) != 0); }
             return R_ok();
         }
         case LG_FLUSH: { InSut s; lg->flush(lg); return R_ok(); }
